@@ -20,6 +20,7 @@ class FunctionReport:
         self.assumptions = set()
         self.mode = None
         self.case = None
+        self.outcomes = []       # (kind, hyps, result value | exception class, top_env) per path  (pyvc/xcheck.py)
 
 
 def verify_function(prog, reg, key, mode='int', case=None, pruning=True, max_paths=400):
@@ -128,6 +129,7 @@ def _run_path(eng, fi, c, case, rep, suffix):
     env2.update(env)                                                          # ... parameters: their entry values
     env2['old'] = old
     hyps = list(eng.facts) + list(eng.pc)
+    rep.outcomes.append((outcome[0], hyps, outcome[1] if outcome[0] == 'normal' else outcome[1].cls, dict(env)))
     if outcome[0] == 'normal':
         env2['result'] = outcome[1]
         rep.exits.append(('normal', f'{fi.qualname}/exit:normal{suffix}#p{eng.path_id}', hyps))
